@@ -193,9 +193,18 @@ def run_one(pid, mut, demos, idx):
         for demo in demos:
             try:
                 q = subprocess.run(['/venv/bin/python', demo], cwd=d, env=denv, capture_output=True, text=True, timeout=420)
-                res['demos'][demo] = {'exit': q.returncode, 'tail': (q.stdout + q.stderr)[-240:]}
+                crashed = q.returncode != 0 and 'Traceback (most recent call last)' in q.stderr
+                res['demos'][demo] = {'exit': 'crash' if crashed else q.returncode, 'tail': (q.stdout + q.stderr)[-240:]}
             except subprocess.TimeoutExpired:
                 res['demos'][demo] = {'exit': 'timeout', 'tail': ''}
+        tests = [a for a in (opt('--tests') or '').split(',') if a]
+        if tests and res['check_exit'] == 0 and any(v['exit'] == 1 for v in res['demos'].values()):
+            # only candidate misses are worth the time: does the repository's own suite still pass on this mutant?
+            shutil.copytree(os.path.join(REPO, 'tests'), os.path.join(d, 'tests'), ignore=shutil.ignore_patterns('__pycache__'))
+            t = subprocess.run(['/venv/bin/python', '-m', 'pytest', '-q', '-x', '-p', 'no:cacheprovider'] + tests, cwd=d, env=denv,
+                               capture_output=True, text=True, timeout=1500)
+            res['tests_exit'] = t.returncode
+            res['tests_tail'] = t.stdout[-200:]
         return idx, res
     finally:
         shutil.rmtree(d, ignore_errors=True)
@@ -220,6 +229,9 @@ def main():
     tg = targets_from_evidence(pid)
     only = set((opt('--funcs') or '').split(',')) - {''}
     muts = []
+    onlyfile = opt('--file')
+    if onlyfile:
+        tg = {k: v for k, v in tg.items() if onlyfile in k}
     per_file = max(1, limit // max(1, len(tg)))
     for relpath, quals in sorted(tg.items()):
         if only:
@@ -239,7 +251,8 @@ def main():
             dk = [v['exit'] for v in r['demos'].values()]
             tag = 'CHECK+' if r['check_exit'] == 1 else ('CHECK!' if r['check_exit'] == 2 else 'check-')
             dtag = 'demo-kill' if any(x == 1 for x in dk) else ('demo-crash' if any(x not in (0, 1) for x in dk) else 'demo-ok')
-            print('%s %-10s %s:%s line %d [%s] %s' % (tag, dtag, m['file'].split('/')[-1], m['func'], m['line'], m['kind'], m['before'][:60]), flush=True)
+            ttag = '' if 'tests_exit' not in r else (' tests-pass' if r['tests_exit'] == 0 else ' tests-fail')
+            print('%s %-10s%s %s:%s line %d [%s] %s' % (tag, dtag, ttag, m['file'].split('/')[-1], m['func'], m['line'], m['kind'], m['before'][:60]), flush=True)
     out = opt('--out')
     if out:
         json.dump([{k: v for k, v in m.items() if k != 'text'} | {'result': r} for m, r in zip(muts, results)], open(out, 'w'), indent=1)
@@ -248,7 +261,9 @@ def main():
     print('\n%s summary: %d mutants; check fired on %d; oracle killed %d; candidate misses %d; fired-but-oracle-ok %d' % (
         pid, len(muts), sum(1 for r in results if r['check_exit'] == 1), sum(1 for r in results if any(v['exit'] == 1 for v in r['demos'].values())), len(miss), len(fa)))
     for m, r in miss:
-        print('  MISS? %s:%s line %d [%s] %s' % (m['file'], m['func'], m['line'], m['kind'], m['before']))
+        if r.get('tests_exit', 0) != 0:
+            continue            # the repository's own tests already catch this mutant
+        print('  MISS? %s:%s line %d [%s] %s | %s' % (m['file'], m['func'], m['line'], m['kind'], m['before'], next(iter(r['demos'].values()))['tail'][-120:].replace('\n', ' ')))
 
 
 if __name__ == '__main__':
